@@ -47,6 +47,13 @@ enum SimPointKind {
 void sim_plain_point(void* pc, const void* addr, int is_write);
 void sim_plain_point_n(void* pc, const void* addr, int is_write, int size);
 
+// ---- TSO store buffers (fault kind SF_STORE_BUFFER; see simrt.cpp) ----
+extern int sim_tso_active;                                                  // this run may buffer stores
+int sim_tso_store(volatile void* addr, int size, uint64_t val, int mo);     // 1: buffered, the caller must not store
+int sim_tso_forward(const volatile void* addr, int size, uint64_t* val);    // 1: *val is the caller's own pending store
+void sim_tso_flush_self(void);                                              // locked instruction / mfence / kernel entry
+void sim_tso_free_range(const void* addr, size_t size);                     // memory returned to the allocator
+
 // ---- order-aware data-race detector (race.cpp; property C10) ----
 void sim_race_enable(int on);
 void sim_race_atomic(const void* addr, int op /*0 load 1 store 2 rmw*/, int memory_order);
@@ -70,10 +77,12 @@ enum SimFaultKind {
   SF_SLOW_START = 5,
   SF_YIELD_NOOP = 6,
   SF_EINTR_FUTEX = 7,
-  SF_NKINDS = 8,
+  SF_STORE_BUFFER = 8, // x86-TSO store buffering of non-seq_cst atomic stores (opt-in per workload; fine variants only)
+  SF_NKINDS = 9,
 };
 #define SF_BIT(k) (1u << (k))
 #define SF_ALL 0xffu
+#define SF_TSO SF_BIT(SF_STORE_BUFFER) // opt-in: only for workloads whose oracles do not assume sequential consistency
 // faults that can only delay things (safe for every workload)
 #define SF_DELAY_ONLY (SF_BIT(SF_STALL) | SF_BIT(SF_WAKE_CHOICE) | SF_BIT(SF_LATE_TIMER) | SF_BIT(SF_SLOW_START) | SF_BIT(SF_YIELD_NOOP))
 
